@@ -107,37 +107,123 @@ def check(ctx):
     ctx.sample({"closure_functions": len(closure), "diverging_sites": n_div, "abort_macros_found": sorted("%s:%s" % k for k in found)})
 
     # ---- (2) moved key record is re-linked -----------------------------------------------------
-    lookup = R.need("LOOKUP")
-    put = prog.find(name="put_kt", self_adt=INNER, trait=OBJSAFE)[0]
-    dele = prog.find(name="del_kt", self_adt=INNER, trait=OBJSAFE)[0]
-    eff = role_effects(prog, R, ["HEAD_WRITE", "KEY_REWRITE"])
-    for fn, producer, what in ((put, "OVERWRITE", "put_kt:overwrite"), (dele, "KEY_REWRITE", "del_kt:predecessor")):
-        ctx.touch(fn)
-        prod = R.need(producer)
-        sites = calls_to(prog, fn, target_fn=prod)
-        if not ctx.check(len(sites) >= 1, "relink", what + ":site", "no call of %s in %s" % (producer, fn.name), where=where(fn)):
+    # Every rewrite of a key record (KEY_REWRITE) inside the map type can move the record.  Its resulting offset must
+    # either be compared with the offset the record had (and the "moved" outcome must neither diverge nor continue
+    # without re-linking), or be handed to the caller, who then has the same obligation.
+    relink_ids = {R.need("HEAD_WRITE").id, R.need("KEY_REWRITE").id}
+
+    def relink_label(p, f, t):
+        return {"RELINK"} if any(x.id in relink_ids for x in p.targets(t, f)[0]) else ()
+    eff = role_effects(prog, R, [], extra_call=relink_label)
+    rewrite = R.need("KEY_REWRITE")
+    todo = [(f, b, "KEY_REWRITE") for f, b in prog.callers().get(rewrite.id, []) if f.impl_self_adt == INNER]
+    ctx.floor("relink", "key-record rewrite sites in the map type", len(todo), 2)
+    seen_sites = set()
+    n_cmp = 0
+    moved_arms = []
+    while todo:
+        fn, site, what = todo.pop()
+        if (fn.id, site) in seen_sites:
             continue
-        # comparisons of key offsets where one side originates from the producer's result
+        seen_sites.add((fn.id, site))
+        ctx.touch(fn)
+        inst = "%s:%s@%s" % (fn.name, what, line_of(fn, site).rsplit(":", 1)[-1] if False else what)
+        inst = "%s:%s" % (fn.name, what)
         cmps = []
         for sw in bool_switches(prog, fn):
             for o in sw["cond"]:
                 if o.kind == "call" and o.data.get("callee") in ("core::cmp::PartialEq::ne", "core::cmp::PartialEq::eq") \
                         and o.data.get("gargs") and o.data["gargs"][0] == KEYOFF:
                     sides = [origins(prog, fn, a, at=o.block) for a in o.data["args"]]
-                    from_prod = [bool(s) and all(is_call_to(prog, fn, x, prod) for x in s) for s in sides]
-                    from_lookup = [bool(s) and all(is_call_to(prog, fn, x, lookup) for x in s) for s in sides]
-                    if any(from_prod) and any(from_lookup):
+                    if any(bool(sd) and all(x.kind == "call" and x.block == site for x in sd) for sd in sides):
                         moved = sw["true"] if o.data["callee"].endswith("::ne") else sw["false"]
                         cmps.append((sw["block"], moved))
-        if not ctx.check(len(cmps) >= 1, "relink", what + ":compared",
-                         "the offset of the key record after %s is never compared with its previous offset: a moved record would be lost silently" % producer,
-                         where=where(fn, sites[0][0])):
+        if cmps:
+            n_cmp += 1
+            for blk, moved in cmps:
+                if diverges(fn, moved):
+                    ctx.fail("relink", inst + ":moved-arm-diverges", "when the key record moves in %s the operation gives up (diverging arm)" % fn.name, where=where(fn, moved))
+                    continue
+                moved_arms.append((fn, moved, site))
+                relinks = [b for b in range(len(fn.blocks)) if not fn.is_cleanup(b) and "RELINK" in eff.block_must(fn, b, eff.must)]
+                ok = bool(relinks) and not fn.success_reach_return(moved, relinks)
+                ctx.check(ok, "relink", inst + ":moved-arm-relinks",
+                          "when the key record moves in %s the operation continues without re-linking it (neither the bucket head nor the predecessor is rewritten on some path)" % fn.name,
+                          where=where(fn, moved))
             continue
-        for blk, moved in cmps:
-            if diverges(fn, moved):
-                ctx.note("%s: the moved-record arm diverges (reported by the abort inventory)" % what)
-                continue
-            relinks = [b for b in region_dominated(fn, moved) if eff.block_must(fn, b, eff.must) & {"HEAD_WRITE", "KEY_REWRITE"}]
-            ctx.check(bool(relinks) and not fn.success_reach_return(moved, relinks), "relink", what + ":moved-arm-relinks",
-                      "when the key record moves in %s the operation continues without re-linking it (bucket head / predecessor not rewritten)" % what,
-                      where=where(fn, moved))
+        # not compared here: is the new offset handed to the caller?
+        ret = tracer_place0(prog, fn)
+        if any(x.kind == "call" and x.block == site for x in ret):
+            callers = [(f, b) for f, b in prog.callers().get(fn.id, []) if f.crate == "abyssiniandb"]
+            ctx.check(bool(callers), "relink", inst + ":returned", "%s returns the possibly-moved offset but has no caller" % fn.name, where=where(fn, site))
+            for f, b in callers:
+                todo.append((f, b, "%s()" % fn.name))
+            continue
+        ctx.fail("relink", inst + ":compared",
+                 "the offset a key record has after being rewritten in %s is neither compared with its previous offset nor returned: if the record "
+                 "moved, whatever pointed at it still points at the freed slot and the entry (and the rest of its chain) is lost" % fn.name, where=where(fn, site))
+    ctx.floor("relink", "rewrite results compared with the old offset", n_cmp, 2)
+    check_relink_values(ctx, prog, R, eff, moved_arms)
+
+
+def check_relink_values(ctx, prog, R, eff, moved_arms):
+    """What is stored as the new link must be the moved record's new offset: in a re-link helper called from a moved arm,
+    every link store (bucket-head write argument, assignment to a key record's next link) originates from the helper's
+    new-offset parameter or from a key rewrite's resulting offset; and the callers pass such an offset."""
+    from .util import field_stores, region_dominated as rd
+    rewrite, overwrite, head_write = R.need("KEY_REWRITE"), R.get("OVERWRITE"), R.need("HEAD_WRITE")
+
+    def is_new_offset(fn, o):
+        if o.kind != "call":
+            return False
+        tg = [x.id for x in prog.targets(o.data, fn)[0]]
+        if rewrite.id in tg and o.proj[:1] == ("?ok",) and o.proj[-1].endswith(".offset"):
+            return True
+        if overwrite is not None and overwrite.id in tg and o.proj == ("?ok",):
+            return True
+        return False
+    helpers = {}
+    for fn, moved, site in moved_arms:
+        for b in rd(fn, moved):
+            t = fn.blocks[b]["term"]
+            if t and t["t"] == "call":
+                for x in prog.targets(t, fn)[0]:
+                    if x.impl_self_adt == INNER and "RELINK" in eff.must.get(x.id, set()):
+                        helpers.setdefault(x.id, []).append((fn, b, t))
+    n = 0
+    for hid, sites in helpers.items():
+        h = prog.fns[hid]
+        ctx.touch(h)
+        link_vals = []
+        for b, t in calls_to(prog, h, target_fn=head_write):
+            link_vals.append((b, origins(prog, h, t["args"][2], at=b)))
+        for f, b, s_ in field_stores(prog, "KeyPiece.bucket_next_offset"):
+            if f.id == h.id:
+                link_vals.append((b, origins(prog, h, s_["rhs"].get("a", {}), at=b)))
+        params = set()
+        for b, os_ in link_vals:
+            n += 1
+            ok = bool(os_) and all((o.kind == "param" and not o.proj) or is_new_offset(h, o) for o in os_)
+            params |= {o.data for o in os_ if o.kind == "param"}
+            ctx.check(ok, "relink", "%s:link-is-new-offset" % h.name,
+                      "%s stores a link that is not the moved record's new offset (%s): the chain would point at a freed slot" % (h.name, os_), where=where(h, b))
+        for fn, b, t in sites:
+            for pidx in params:
+                a = origins(prog, fn, t["args"][pidx - 1], at=b)
+                ctx.check(bool(a) and all(is_new_offset(fn, o) for o in a), "relink", "%s:passes-new-offset" % fn.name,
+                          "%s does not pass the moved record's new offset to %s (%s)" % (fn.name, h.name, a), where=where(fn, b))
+    # re-linking written inline in the moved arm (no helper): the same obligation on the arm's own link stores
+    for fn, moved, site in moved_arms:
+        reg = rd(fn, moved)
+        vals = [(b, origins(prog, fn, t["args"][2], at=b)) for b, t in calls_to(prog, fn, target_fn=head_write) if b in reg]
+        vals += [(b, origins(prog, fn, s_["rhs"].get("a", {}), at=b)) for f, b, s_ in field_stores(prog, "KeyPiece.bucket_next_offset") if f.id == fn.id and b in reg]
+        for b, os_ in vals:
+            n += 1
+            ctx.check(bool(os_) and all(is_new_offset(fn, o) for o in os_), "relink", "%s:inline-link-is-new-offset" % fn.name,
+                      "%s re-links with something that is not the moved record's new offset (%s)" % (fn.name, os_), where=where(fn, b))
+    ctx.floor("relink", "link stores on moved-record paths checked", n, 2)
+
+
+def tracer_place0(prog, fn):
+    from .util import tracer, leaf_origins
+    return leaf_origins(prog, fn, {"k": "cp", "pl": {"l": 0, "p": []}})
